@@ -340,6 +340,43 @@ def second_creator(rng, s, b):
 
 
 @mutator("C06")
+def unrelated_editor_shares_checkpoint_with_inner_action(rng, s, b):
+    """Nested thread groups I inside O.  C creates a promise in O and I's own checkpoint waits for C.  A new action E in
+    O edits C's promise although C is no ancestor of E; E waits for a checkpoint K (bound to O, not leading to C) that
+    an action X of the INNER group names as well, and X is listed before E.  Whatever is derived for X -- whose thread
+    group does lead to C -- must not be credited to E."""
+    inner = [g for g in s["groups"] if g["ctx"] is not None and g["dep"] is not None]
+    rng.shuffle(inner)
+    for I in inner:
+        O = I["ctx"][1]
+        cs = [a for a in s["actions"] if a["ctx"] == ("group", O) and b.creator.get(a["promise"][1]) == a["id"]
+              and not any(x is not a and x["promise"] == a["promise"] for x in s["actions"])]
+        xs = [a for a in s["actions"] if a["ctx"] == ("group", I["id"]) and b.creator.get(a["promise"][1]) == a["id"]
+              and not a["op"]["edges"] and a["op"]["appends"] is None]
+        ms = [a for a in s["actions"] if a["ctx"] is None]
+        if not cs or not xs or not ms:
+            continue
+        C, X = rng.choice(cs), rng.choice(xs)
+        # nothing in the scenario may depend on X through its old checkpoint semantics: X keeps its promise, only waits for K
+        m = rng.choice(ms)
+        icp = next((c for c in s["checkpoints"] if c["id"] == I["dep"][1]), None)
+        if icp is None or icp["ctx"] != ("group", O):
+            continue
+        add_dep(rng, icp, b.make_cmp(C["id"])[0])
+        kid = max(c["id"] for c in s["checkpoints"]) + 1
+        s["checkpoints"].append({"id": kid, "alias": 500 + kid, "gate": None, "deps": [b.make_cmp(m["id"])[0]], "ctx": ("group", O)})
+        X["dep"] = ("checkpoint", kid)
+        eid = max(a["id"] for a in s["actions"]) + 1
+        pr = next(q for q in s["promises"] if q["id"] == C["promise"][1])
+        t = b.otype(pr["type"][1])
+        s["actions"].append({"id": eid, "name": 400 + eid, "party": C["party"], "promise": C["promise"], "ctx": ("group", O),
+                             "dep": ("checkpoint", kid), "op": {"incl": ("include", [t["attrs"][0]["name"]]), "defaults": [], "edges": [], "appends": None},
+                             "milestones": []})
+        return "an action edits a promise whose creator is not its ancestor, sharing its checkpoint with an action of a nested thread group that does descend from the creator"
+    return None
+
+
+@mutator("C06")
 def promise_never_fulfilled(rng, s, b):
     t = rng.choice(s["otypes"])
     pid = max(p["id"] for p in s["promises"]) + 1
@@ -756,7 +793,7 @@ def edit_outside_fulfilment_context(rng, s, b):
     return "edit outside the context in which the promise is fulfilled"
 
 
-THREAD_ONLY = {"nested_spawn_from_threaded_non_ancestor", "path_on_scalar_variable", "threaded_checkpoint_used_outside", "threaded_action_compared_outside", "second_threaded_operand_outside", "variable_used_outside",
+THREAD_ONLY = {"unrelated_editor_shares_checkpoint_with_inner_action", "nested_spawn_from_threaded_non_ancestor", "path_on_scalar_variable", "threaded_checkpoint_used_outside", "threaded_action_compared_outside", "second_threaded_operand_outside", "variable_used_outside",
                "spawn_from_non_list", "spawn_not_fulfilled_by_ancestor", "unused_thread_group",
                "variable_name_repeats_in_chain", "promise_context_mismatch", "edit_outside_fulfilment_context"}
 
